@@ -50,6 +50,15 @@ func coreC05(tier string) []RunSpec {
 		}
 		rec(nil)
 	}
+	// one storage error inside the melt call or inside the poll that would adopt the outcome
+	for pay := 0; pay < 4; pay++ {
+		for k := 1; k <= 12; k++ {
+			out = append(out, RunSpec{Profile: "core:db-error", Params: map[string]int{"dbf": 1, "pay": pay, "fpos": k, "fwhere": 0, "final": k % 2}})
+			if tier == "thorough" || k <= 5 {
+				out = append(out, RunSpec{Profile: "core:db-error", Params: map[string]int{"dbf": 1, "pay": pay, "fpos": k, "fwhere": 1, "final": k % 2}})
+			}
+		}
+	}
 	return out
 }
 
@@ -135,7 +144,32 @@ func runC05(rc *RunCtx) {
 			seq = append(seq, c05Status[rc.P(fmt.Sprintf("s%d", i), 1)])
 		}
 	}
+	// separate configuration: one injected storage error (in the melt call or in a poll). The step
+	// by step table is not judged then - an operation may fail - only the convergence clause:
+	// once the backend knows the final outcome and errors stopped, the next polls adopt it.
+	dbf := rc.P("dbf", 0) == 1
+	fpos, fwhere := rc.P("fpos", 1), rc.P("fwhere", 0)
+	if random && T.Chance("dbf", 1, 4) {
+		dbf = true
+		fpos = 1 + T.Choose("dbf.pos", 14)
+		fwhere = T.Choose("dbf.where", 2)
+	}
+	if dbf {
+		// only ambiguous scripted answers: a scripted definitive answer is consumed once, and a
+		// poll repeated after a storage error would be told something else by a lying backend
+		amb := seq[:0]
+		for _, a := range seq {
+			if a == "error" || a == "pending" {
+				amb = append(amb, a)
+			}
+		}
+		seq = amb
+		n = len(seq)
+	}
 	script := c05Pay[pay] + ":" + strings.Join(seq, ",")
+	if dbf {
+		script += fmt.Sprintf(" db_error@%d/%d", fpos, fwhere)
+	}
 	ln := LNConfig{FeePolicy: 1}
 	fee := uint(0)
 	if random {
@@ -167,13 +201,30 @@ func runC05(rc *RunCtx) {
 	var q *MeltQuote
 	var ins []*HProof
 	var meltResp *Resp
-	rc.S.BeginEpisode()
+	if dbf {
+		// the quote is requested in an episode of its own: the storage error is for the melt
+		rc.S.BeginEpisode()
+		rc.S.Run1("quote", W.Ext, func() {
+			var mppMsat uint64
+			if mpp {
+				mppMsat = amt * 1000 / 2
+			}
+			q, _ = m.User.ReqMeltQuote("A", inv.Bolt11, mppMsat)
+		})
+	}
+	if dbf && fwhere == 0 {
+		rc.S.BeginEpisode(&FaultPlan{Node: "A", Kind: "db_error", SeamKind: "db", Pos: fpos})
+	} else {
+		rc.S.BeginEpisode()
+	}
 	rc.S.Run1("melt", W.Ext, func() {
 		var mppMsat uint64
 		if mpp {
 			mppMsat = amt * 1000 / 2
 		}
-		q, _ = m.User.ReqMeltQuote("A", inv.Bolt11, mppMsat)
+		if !dbf {
+			q, _ = m.User.ReqMeltQuote("A", inv.Bolt11, mppMsat)
+		}
 		if q == nil {
 			return
 		}
@@ -193,6 +244,10 @@ func runC05(rc *RunCtx) {
 	Ys := make([]string, len(ins))
 	for i, p := range ins {
 		Ys[i] = p.Y()
+	}
+	if dbf {
+		c05Faulted(rc, m, q, ins, Ys, inv, seq, ch, final, fpos, fwhere, fail)
+		return
 	}
 
 	// expected state after the melt call
@@ -358,6 +413,126 @@ func runC05(rc *RunCtx) {
 		if p.Truth == ptFailed && cur == c5Spent {
 			fail("failed_but_spent", "the Lightning payment failed but the inputs are spent")
 		}
+	}
+	W.Book.FinalizeMelts()
+	rc.Nontrivial = true
+}
+
+// c05Faulted: the melt (fwhere 0) or one poll (fwhere 1) met a storage error. Afterwards the
+// remaining ambiguous answers are consumed, the payment reaches its final outcome, and two clean
+// polls through each channel must show the state that matches the backend's truth.
+func c05Faulted(rc *RunCtx, m *MW, q *MeltQuote, ins []*HProof, Ys []string, inv *LNInvoice, seq []string, ch, final, fpos, fwhere int, fail func(string, string, ...any)) {
+	W := rc.W
+	look := func(useCS bool, plan *FaultPlan) int {
+		st := 0
+		if plan != nil {
+			rc.S.BeginEpisode(plan)
+		} else {
+			rc.S.BeginEpisode()
+		}
+		rc.S.Run1("poll", W.Ext, func() {
+			if useCS {
+				r := m.User.CheckState("A", Ys)
+				if !r.OK() {
+					return
+				}
+				states, _ := r.Body["states"].([]any)
+				for i, sv := range states {
+					sm, _ := sv.(map[string]any)
+					s, _ := sm["state"].(string)
+					x := proofToState(s)
+					if i == 0 {
+						st = x
+					} else if x != st {
+						st = -1
+					}
+				}
+			} else {
+				r := m.User.PollMeltQuote("A", q.ID)
+				if !r.OK() {
+					return
+				}
+				st = quoteToState(RespState(r))
+				if st == c5Spent {
+					if pre, _ := r.Body["payment_preimage"].(string); pre != inv.Preimage {
+						fail("preimage", "quote poll reports PAID with preimage %q, the payment's preimage is %q", short(pre), short(inv.Preimage))
+					}
+				}
+			}
+		})
+		return st
+	}
+	// ambiguous answers, the first poll possibly with the storage error
+	for i := 0; i <= len(seq); i++ {
+		var plan *FaultPlan
+		if fwhere == 1 && i == 0 {
+			plan = &FaultPlan{Node: "A", Kind: "db_error", SeamKind: "db", Pos: fpos}
+		}
+		if i == len(seq) && plan == nil {
+			break
+		}
+		st := look(ch&(1<<uint(i)) != 0, plan)
+		if st == c5Spent {
+			if p := W.LN.Payments["A|"+inv.Hash]; p == nil || p.Truth != ptSucceeded {
+				fail("spent_without_success", "inputs reported SPENT / quote PAID although the backend never reported success")
+				return
+			}
+		}
+	}
+	// from here on the backend answers truthfully (scripted answers a poll did not need - the
+	// inputs were already settled - are dropped)
+	delete(W.LN.Scripts, inv.Hash)
+	key := "A|" + inv.Hash
+	p := W.LN.Payments[key]
+	if p != nil && p.Truth == ptInflight {
+		W.LN.ResolveInflight(key, final == 1)
+	}
+	want, why := c5Released|c5Locked, "no payment exists"
+	if p != nil {
+		switch p.Truth {
+		case ptSucceeded:
+			want, why = c5Spent, "the payment succeeded"
+		case ptFailed:
+			want, why = c5Released, "the payment failed"
+		}
+	}
+	rc.S.Quiet = true
+	var sq, sc int
+	for round := 0; round < 2; round++ {
+		sq = look(false, nil)
+		sc = look(true, nil)
+	}
+	rc.S.Probe("c05_faulted_converged_checked")
+	if rc.S.Stats["fault_db_error"] > 0 {
+		rc.S.Probe("c05_faulted_error_fired")
+	}
+	if sq == 0 || sc == 0 {
+		fail("poll_error", "polls keep failing after the storage error stopped")
+		return
+	}
+	if sc == -1 {
+		fail("inputs_disagree", "inputs of one melt are in different states after a storage error (%s)", why)
+		return
+	}
+	if sq&want == 0 || sc&want == 0 {
+		fail("not_converged", "%s, but after two clean polls the quote shows %s and the inputs %s (statement: %s)", why, c5name(sq), c5name(sc), c5name(want))
+		return
+	}
+	if sq != sc {
+		fail("channels_disagree", "after a storage error the quote poll says %s, checkstate says %s", c5name(sq), c5name(sc))
+		return
+	}
+	ks := W.ActiveKeyset("A")
+	feeIn := m.feeFor("A", ins)
+	var sr *Resp
+	rc.S.Run1("followup", W.Ext, func() {
+		_, sr = m.Atk.Swap("A", ins, W.NewOutputs(Split(SumH(ins)-feeIn), ks.ID))
+	})
+	if sq == c5Released && !sr.OK() {
+		fail("released_not_spendable", "inputs reported released after a storage error but a follow-up swap is rejected: %v", sr)
+	}
+	if sq != c5Released && sr.OK() {
+		fail("locked_spendable", "inputs are %s but a follow-up swap succeeded", c5name(sq))
 	}
 	W.Book.FinalizeMelts()
 	rc.Nontrivial = true
